@@ -108,7 +108,7 @@ def sec_rand(ck, env):
     ranges = {k: (S[k][0], S[k][1]) for k in ("fr", "flr", "ar", "mr", "tor")}
     A = stubs.contracts(it) + [lo <= hi for lo, hi in ranges.values()]
     A += [x >= 0 for k in ("nfl", "na", "nbm") for x in S[k].reshape(-1)]
-    ck.witness("witness.rand.assumptions_satisfiable", A, nonlinear=True)
+    witness(ck, "witness.rand.assumptions_satisfiable", A, nonlinear=True)
 
     def within(x, lo, hi):
         return z3.And(x >= lo, x <= hi)
@@ -134,7 +134,7 @@ def sec_rand(ck, env):
         rest[:2, :2] = False
         bad2 = bool(np.any(np.abs(x - i["model_pair_friction"])[rest] > tol))
         return bad or bad2, {"range": [a, b], "pair_friction[:3]": x[:3].tolist(), "nominal[:3]": i["model_pair_friction"][:3].tolist()}
-    ck.prove("rand.pair_friction.range", A, conj(g), nonlinear=True, replay=rp(p_fr))
+    prove(ck, "rand.pair_friction.range", A, conj(g), nonlinear=True, replay=rp(p_fr))
 
     # ---- friction loss / armature of the actuated dofs (index 6 and up): nominal * scale, scale in [lo, hi]; the free-joint dofs nominal
     for leaf, nom, rk in (("dof_frictionloss", "nfl", "flr"), ("dof_armature", "na", "ar")):
@@ -149,9 +149,9 @@ def sec_rand(ck, env):
             v, nm = o_[leaf], i[nom]
             bad = bool(np.any(v[6:] < nm * a - tol * (1 + np.abs(nm * a))) or np.any(v[6:] > nm * b + tol * (1 + np.abs(nm * b))) or np.any(np.abs(v[:6] - i["model_" + leaf][:6]) > tol))
             return bad, {"scale_range": [a, b], leaf + "[4:10]": v[4:10].tolist(), "nominal_actuated[:4]": nm[:4].tolist(), "model_" + leaf + "[4:10]": i["model_" + leaf][4:10].tolist()}
-        ck.prove(f"rand.{leaf}.range", A, conj(g), nonlinear=True, replay=rp(p_sc))
+        prove(ck, f"rand.{leaf}.range", A, conj(g), nonlinear=True, replay=rp(p_sc))
         # negative control: claiming that index 6 is NOT randomised (an off-by-one `.at[7:]`) must be refuted
-        ck.control(f"control.rand.{leaf}.index6_untouched", A, eq_elem(x[6], x0[6]), nonlinear=True)
+        control(ck, f"control.rand.{leaf}.index6_untouched", A, eq_elem(x[6], x0[6]), nonlinear=True)
 
     # ---- body masses: nominal * scale, plus the payload offset on the torso
     bm = out["body_mass"]
@@ -172,8 +172,8 @@ def sec_rand(ck, env):
         hi_[tid] += d
         bad = bool(np.any(v < lo_ - tol * (1 + np.abs(lo_))) or np.any(v > hi_ + tol * (1 + np.abs(hi_))))
         return bad, {"scale_range": [a, b], "torso_offset_range": [c, d], "body_mass[:4]": v[:4].tolist(), "nominal[:4]": nm[:4].tolist(), "torso": [float(v[tid]), float(nm[tid])]}
-    ck.prove("rand.body_mass.range", A, conj(g), nonlinear=True, replay=rp(p_bm))
-    ck.control("control.rand.body_mass.torso_without_offset", A, within(bm[tid], S["nbm"][tid] * lo, S["nbm"][tid] * hi), nonlinear=True)
+    prove(ck, "rand.body_mass.range", A, conj(g), nonlinear=True, replay=rp(p_bm))
+    control(ck, "control.rand.body_mass.torso_without_offset", A, within(bm[tid], S["nbm"][tid] * lo, S["nbm"][tid] * hi), nonlinear=True)
 
     # ---- every other model parameter is the nominal one
     expected = {"pair_friction", "dof_frictionloss", "dof_armature", "body_mass"}
@@ -256,7 +256,7 @@ def sec_initial(ck, task, env, stub, varied):
         bad = bad or bool(np.any(p[:2, :2] < fr[0] - 1e-4) or np.any(p[:2, :2] > fr[1] + 1e-4))
         return bad, {"dof_frictionloss[4:10]": x[4:10].tolist(), "nominal_friction_loss[:4]": nmv[:4].tolist(), "dof_armature[4:10]": y[4:10].tolist(),
                      "nominal_armature[:4]": nma[:4].tolist(), "body_mass[:4]": m[:4].tolist(), "pair_friction[:2]": p[:2].tolist()}
-    ck.prove(f"initial.{task}.randomised_model_in_ranges", A + nonneg, conj(g), nonlinear=True, replay=rp_model)
+    prove(ck, f"initial.{task}.randomised_model_in_ranges", A + nonneg, conj(g), nonlinear=True, replay=rp_model)
     model_out = [n for n in tr.out_names if n.startswith("model_")]
     others = [n for n in model_out if n[len("model_"):] not in varied]
     okp = all(pt.get(n) == "env_base_" + n for n in others)
@@ -280,15 +280,15 @@ def sec_initial(ck, task, env, stub, varied):
             fr2 = f64(ins["env_gait_frequency_range"])
             ok = (all(r[i][0] - 1e-4 <= c[i] <= r[i][1] + 1e-4 for i in range(3)) or bool(np.all(c == 0))) and fr2[0] - 1e-4 <= f <= fr2[1] + 1e-4
             return not ok, {"command": c.tolist(), "ranges": [x.tolist() for x in r], "gait_frequency": f, "gait_frequency_range": fr2.tolist()}
-        ck.prove(f"initial.{task}.command_frequency", A + pre, goal, nonlinear=True, replay=rp_cmd)
-        ck.witness(f"witness.initial.{task}.zero_command_reachable", A + pre + [zero if not isconc(zero) else True])
-        ck.control(f"control.initial.{task}.frequency_below_midpoint", A + pre, fq * 2 <= fr_[0] + fr_[1], nonlinear=True)
+        prove(ck, f"initial.{task}.command_frequency", A + pre, goal, nonlinear=True, replay=rp_cmd)
+        witness(ck, f"witness.initial.{task}.zero_command_reachable", A + pre + [zero if not isconc(zero) else True])
+        control(ck, f"control.initial.{task}.frequency_below_midpoint", A + pre, fq * 2 <= fr_[0] + fr_[1], nonlinear=True)
     else:
         def rp_zero(res):
             ins, outs = bind(tr, S, res, it)
             c = f64(outs["command"])
             return bool(np.any(c != 0)), {"command": c.tolist()}
-        ck.prove(f"initial.{task}.command_frequency", A, eq_arr(cmd, np.array([Fraction(0)] * 3, dtype=object)), replay=rp_zero)
+        prove(ck, f"initial.{task}.command_frequency", A, eq_arr(cmd, np.array([Fraction(0)] * 3, dtype=object)), replay=rp_zero)
 
     # ---- gait phases at the start: [-pi, pi], half a cycle apart
     ph = out["gait_phase"]
@@ -300,7 +300,7 @@ def sec_initial(ck, task, env, stub, varied):
         p = f64(outs["gait_phase"])
         d = abs(abs(p[1] - p[0]) - math.pi)
         return bool(d > 1e-5 or np.any(np.abs(p) > math.pi + 1e-6)), {"initial gait_phase": p.tolist()}
-    ck.prove(f"phase.initial@{task}", A, gp, nonlinear=True, replay=rp_ph)
+    prove(ck, f"phase.initial@{task}", A, gp, nonlinear=True, replay=rp_ph)
 
     # ---- derived kinematics are those of ONE forward() of the returned qpos, qvel, ctrl with the returned model
     D = {n[len("sim_state_"):].replace("_impl_", "", 1) if n.startswith("sim_state__impl_") else n[len("sim_state_"):]: out[n] for n in tr.out_names if n.startswith("sim_state_")}
@@ -318,7 +318,12 @@ def sec_initial(ck, task, env, stub, varied):
     cands.append(raw)
     alts = []
     derived = [f for f in stub.written["forward"] if f != "qpos" and D[f].size]
-    for c in cands:
+
+    def same(xs, ys):
+        return len(xs) == len(ys) and all((x.eq(y) if isinstance(x, z3.ExprRef) and isinstance(y, z3.ExprRef) else False) for x, y in zip(xs, ys))
+    # fast path: a forward() application whose qvel/ctrl/model operands ARE the returned ones and whose qpos output IS the returned qpos
+    exact = [c for c in cands[:-1] if same(raw[nq:], c[nq:]) and eq_arr(D["qpos"], stub.sym_field(it, "FWD", "qpos", c)) is True]
+    for c in (exact[:1] or cands):
         gq = [eq_arr(objarr(raw[nq:]), objarr(c[nq:])),
               disj([eq_arr(objarr(raw[:nq]), objarr(c[:nq])), eq_arr(D["qpos"], stub.sym_field(it, "FWD", "qpos", c))])]
         for f in derived:
@@ -334,11 +339,11 @@ def sec_initial(ck, task, env, stub, varied):
                 diffs[f] = {"returned_by_initial": a.reshape(-1)[:6].tolist(), "forward_of_the_returned_state": b.reshape(-1)[:6].tolist(), "max_abs_difference": float(np.abs(a - b).max())}
         return bool(diffs), {"task": task, "qpos[:3]": f64(st.sim_state.qpos)[:3].tolist(), "derived_leaves_inconsistent_with_qpos": diffs,
                              "how": "real initial() (real mjx.forward) on a concrete key, compared with one more real mjx.forward of the returned state"}
-    ck.prove(f"initial.{task}.kinematics_consistent", A, disj(alts), replay=rp_kin, timeout=120)
+    prove(ck, f"initial.{task}.kinematics_consistent", A, disj(alts), replay=rp_kin, timeout=120)
     # a snap-to-ground that is not followed by forward(): the kinematics of the state BEFORE the z correction must be refuted as consistent
     if len(cands) >= 3:
         stale = conj([eq_arr(D[f], stub.sym_field(it, "FWD", f, cands[0])) for f in ("xpos", "site_xpos") if D[f].size])
-        ck.control(f"control.initial.{task}.kinematics_of_the_state_before_snap_to_ground", A, stale)
+        control(ck, f"control.initial.{task}.kinematics_of_the_state_before_snap_to_ground", A, stale)
     return tr, S, out, it
 
 
@@ -370,7 +375,7 @@ def sec_gait(ck):
     ph, f, dt = S["phase"], S["f"][()], S["dt"][()]
     new = out[tr.out_names[0]]
     pre = phase_pre(ph, f, dt)
-    ck.witness("witness.phase.preconditions_satisfiable", pre + [half_cycle(ph[0], ph[1])], nonlinear=True)
+    witness(ck, "witness.phase.preconditions_satisfiable", pre + [half_cycle(ph[0], ph[1])], nonlinear=True)
 
     def rp(pred):
         def go(res):
@@ -380,18 +385,18 @@ def sec_gait(ck):
             return pred(p, ff, d, real)
         return go
     eps = 1e-4
-    ck.prove("phase.fmod_quotient_in_range", pre, conj(list(it.o.rem_side)), nonlinear=True,
+    prove(ck, "phase.fmod_quotient_in_range", pre, conj(list(it.o.rem_side)), nonlinear=True,
              replay=rp(lambda p, ff, d, r: (bool(np.any(np.abs(p + 2 * math.pi * ff * d + math.pi) >= 3 * 2 * math.pi)), {"phase": p.tolist(), "f": ff, "dt": d})))
-    ck.prove("phase.range", pre, conj([z3.And(new[i] >= -PI, new[i] <= PI) for i in range(2)]), nonlinear=True,
+    prove(ck, "phase.range", pre, conj([z3.And(new[i] >= -PI, new[i] <= PI) for i in range(2)]), nonlinear=True,
              replay=rp(lambda p, ff, d, r: (bool(np.any(np.abs(r) > math.pi + eps)), {"phase": p.tolist(), "f": ff, "dt": d, "next_phase": r.tolist()})))
     inc = 2 * PI * f * dt
-    ck.prove("phase.increment", pre, conj([z3.Or(new[i] == ph[i] + inc, new[i] == ph[i] + inc - 2 * PI) for i in range(2)]), nonlinear=True,
+    prove(ck, "phase.increment", pre, conj([z3.Or(new[i] == ph[i] + inc, new[i] == ph[i] + inc - 2 * PI) for i in range(2)]), nonlinear=True,
              replay=rp(lambda p, ff, d, r: (bool(np.any(np.minimum(np.abs(r - p - 2 * math.pi * ff * d), np.abs(r - p - 2 * math.pi * ff * d + 2 * math.pi)) > eps)),
                                              {"phase": p.tolist(), "f": ff, "dt": d, "next_phase": r.tolist(), "expected_increment": 2 * math.pi * ff * d})))
-    ck.prove("phase.half_cycle_inductive", pre + [half_cycle(ph[0], ph[1])], half_cycle(new[0], new[1]), nonlinear=True,
+    prove(ck, "phase.half_cycle_inductive", pre + [half_cycle(ph[0], ph[1])], half_cycle(new[0], new[1]), nonlinear=True,
              replay=rp(lambda p, ff, d, r: (bool(abs(abs(r[1] - r[0]) - math.pi) > eps), {"phase": p.tolist(), "f": ff, "dt": d, "next_phase": r.tolist()})))
-    ck.control("control.phase.wrap_never_happens", pre, conj([new[i] == ph[i] + inc for i in range(2)]), nonlinear=True)
-    ck.control("control.phase.increment_without_2pi", pre, conj([z3.Or(new[i] == ph[i] + f * dt, new[i] == ph[i] + f * dt - 2 * PI) for i in range(2)]), nonlinear=True)
+    control(ck, "control.phase.wrap_never_happens", pre, conj([new[i] == ph[i] + inc for i in range(2)]), nonlinear=True)
+    control(ck, "control.phase.increment_without_2pi", pre, conj([z3.Or(new[i] == ph[i] + f * dt, new[i] == ph[i] + f * dt - 2 * PI) for i in range(2)]), nonlinear=True)
 
     # ---- initial_gait_phase
     tri = trace(lambda: gait.initial_gait_phase(), argnames=[], label="g1.gait.initial_gait_phase")
@@ -399,7 +404,7 @@ def sec_gait(ck):
     iti = PiInterp()
     p0 = tri.run(iti, tri.symbols(iti))[tri.out_names[0]]
     z = iti.o.z
-    ck.prove("phase.initial", PI_BOUNDS, conj([z3.And(z(p0[i]) >= -PI, z(p0[i]) <= PI) for i in range(2)] + [half_cycle(z(p0[0]), z(p0[1]))]), nonlinear=True,
+    prove(ck, "phase.initial", PI_BOUNDS, conj([z3.And(z(p0[i]) >= -PI, z(p0[i]) <= PI) for i in range(2)] + [half_cycle(z(p0[0]), z(p0[1]))]), nonlinear=True,
              replay=lambda res: (bool(abs(abs(float(gait.initial_gait_phase()[1] - gait.initial_gait_phase()[0])) - math.pi) > 1e-5), {"initial_gait_phase": f64(gait.initial_gait_phase()).tolist()}))
 
     # ---- desired_foot_height: cubic Bezier, real arithmetic
@@ -417,20 +422,20 @@ def sec_gait(ck):
             vals = [concrete.model_leaf(res, Sf[n], av, None) for n, av in zip(trf.in_names, trf.in_avals)]
             return pred(f64(vals[0]), float(vals[1]), f64(concrete.run_real(trf, vals)[0]))
         return go
-    ck.prove("foot.range", pref, conj([z3.And(hf[i] >= 0, hf[i] <= h) for i in range(2)]), nonlinear=True, timeout=120,
+    prove(ck, "foot.range", pref, conj([z3.And(hf[i] >= 0, hf[i] <= h) for i in range(2)]), nonlinear=True, timeout=120,
              replay=rpf(lambda pp, hh, r: (bool(np.any(r < -1e-5) or np.any(r > hh + 1e-5)), {"phase": pp.tolist(), "swing_height": hh, "desired_height": r.tolist()})))
 
     def at(val):
         real = f64(gait.desired_foot_height(jnp.array([val, val], jnp.float32), jnp.array(0.15)))
         return real
-    ck.prove("foot.zero_at_minus_pi", pref + [p[0] == -PI], hf[0] == 0, nonlinear=True,
+    prove(ck, "foot.zero_at_minus_pi", pref + [p[0] == -PI], hf[0] == 0, nonlinear=True,
              replay=lambda res: (bool(abs(at(-math.pi)[0]) > 1e-5), {"desired_height_at_minus_pi": at(-math.pi).tolist()}))
-    ck.prove("foot.peak_at_zero", pref + [p[0] == 0], hf[0] == h, nonlinear=True,
+    prove(ck, "foot.peak_at_zero", pref + [p[0] == 0], hf[0] == h, nonlinear=True,
              replay=lambda res: (bool(abs(at(0.0)[0] - 0.15) > 1e-5), {"desired_height_at_0": at(0.0).tolist(), "swing_height": 0.15}))
-    ck.prove("foot.zero_at_plus_pi", pref + [p[0] == PI], hf[0] == 0, nonlinear=True,
+    prove(ck, "foot.zero_at_plus_pi", pref + [p[0] == PI], hf[0] == 0, nonlinear=True,
              replay=lambda res: (bool(abs(at(math.pi)[0]) > 1e-5), {"desired_height_at_pi": at(math.pi).tolist()}))
-    ck.control("control.foot.peak_at_half_pi", pref + [p[0] * 2 == PI], hf[0] == h, nonlinear=True)
-    ck.control("control.foot.below_half_height", pref, hf[0] * 2 <= h, nonlinear=True)
+    control(ck, "control.foot.peak_at_half_pi", pref + [p[0] * 2 == PI], hf[0] == h, nonlinear=True)
+    control(ck, "control.foot.below_half_height", pref, hf[0] * 2 <= h, nonlinear=True)
 
 
 # ================================================================== one control step
@@ -463,15 +468,46 @@ def sec_transition(ck, task, env, stub, st_example):
         bad = bool(np.any(np.minimum(np.abs(got - exp), 2 * math.pi - np.abs(got - exp)) > 1e-3)) or abs(float(outs["gait_frequency"]) - fin) > 1e-6
         return bad, {"gait_phase": pin.tolist(), "gait_frequency": fin, "dt": din, "next_gait_phase(real code)": got.tolist(), "expected": exp.tolist(),
                      "next_gait_frequency": float(outs["gait_frequency"])}
-    ck.prove(f"phase.fmod_quotient_in_range@transition.{task}", pre, conj(list(it.o.rem_side)), nonlinear=True, replay=rp)
+    prove(ck, f"phase.fmod_quotient_in_range@transition.{task}", pre, conj(list(it.o.rem_side)), nonlinear=True, replay=rp)
     goal = conj([z3.And(new[i] >= -PI, new[i] <= PI, z3.Or(new[i] == ph[i] + inc, new[i] == ph[i] + inc - 2 * PI)) for i in range(2)]
                 + [eq_elem(out["gait_frequency"][()], f), eq_arr(out["command"], S["s_command"])])
-    ck.prove(f"transition.advances_once@{task}", pre, goal, nonlinear=True, replay=rp, timeout=120)
-    ck.prove(f"transition.half_cycle_kept@{task}", pre + [half_cycle(ph[0], ph[1])], half_cycle(new[0], new[1]), nonlinear=True, replay=rp, timeout=120)
-    ck.control(f"control.transition.advances_twice@{task}", pre, conj([z3.Or(new[i] == ph[i] + 2 * inc, new[i] == ph[i] + 2 * inc - 2 * PI, new[i] == ph[i] + 2 * inc - 4 * PI) for i in range(2)]),
+    prove(ck, f"transition.advances_once@{task}", pre, goal, nonlinear=True, replay=rp, timeout=120)
+    prove(ck, f"transition.half_cycle_kept@{task}", pre + [half_cycle(ph[0], ph[1])], half_cycle(new[0], new[1]), nonlinear=True, replay=rp, timeout=120)
+    control(ck, f"control.transition.advances_twice@{task}", pre, conj([z3.Or(new[i] == ph[i] + 2 * inc, new[i] == ph[i] + 2 * inc - 2 * PI, new[i] == ph[i] + 2 * inc - 4 * PI) for i in range(2)]),
                nonlinear=True)
-    ck.control(f"control.transition.uses_mean_frequency@{task}", pre, conj([z3.Or(new[i] == ph[i] + 2 * PI * z3.Q(11, 8) * dt, new[i] == ph[i] + 2 * PI * z3.Q(11, 8) * dt - 2 * PI) for i in range(2)]),
+    control(ck, f"control.transition.uses_mean_frequency@{task}", pre, conj([z3.Or(new[i] == ph[i] + 2 * PI * z3.Q(11, 8) * dt, new[i] == ph[i] + 2 * PI * z3.Q(11, 8) * dt - 2 * PI) for i in range(2)]),
                nonlinear=True)
+
+
+def prove(ck, oid, assumptions, goal, **kw):
+    """default solver first (it also finds counterexamples in the presence of Key-sorted terms), Ackermann + nlsat when it does not decide"""
+    kw.pop("nonlinear", None)
+    if (ck.only is not None and oid != ck.only) or (isconc(goal) and goal):
+        return ck.prove(oid, assumptions, goal, **kw)
+    fs = [a for a in assumptions if not (isconc(a) and a)] + [neg(goal)]
+    fs += solve.instantiate_axioms(fs)
+    pre = solve.decide(fs, timeout_s=15, nonlinear=False)
+    ck.solver_time += pre.time
+    ck.queries += 1
+    return ck.prove(oid, assumptions, goal, nonlinear=pre.status not in ("sat", "unsat"), **kw)
+
+
+def sat_query(ck, oid, formulas, kind):
+    """witness / negative control: default solver first, Ackermann + nlsat if it does not answer"""
+    fs = [f for f in formulas if not (isconc(f) and f)]
+    nl = False
+    if not any(isconc(f) and not f for f in fs):
+        pre = solve.decide(fs + solve.instantiate_axioms(fs), timeout_s=20, nonlinear=False)
+        nl = pre.status != "sat"
+    return ck.witness(oid, formulas, nonlinear=nl, kind=kind)
+
+
+def witness(ck, oid, formulas, **kw):
+    return sat_query(ck, oid, formulas, "witness")
+
+
+def control(ck, oid, assumptions, wrong_goal, **kw):
+    return sat_query(ck, oid, list(assumptions) + [neg(wrong_goal)], "control")
 
 
 def main():
